@@ -714,6 +714,11 @@ def c16(tier):
                          stubs={"algos": ["h3SetToVertexGraph", "_vertexGraphToLinkedGeo"], "vertexGraph": ["destroyVertexGraph"], "linkedGeo": ["normalizeMultiPolygon", "destroyLinkedMultiPolygon"]}, bound="any component results"))
     LLp = {"destroyLinkedMultiPolygon.0": 4, "destroyLinkedMultiPolygon.1": 4, "destroyLinkedGeoLoop.0": 4, "harness.0": 25, "harness.1": 4, "harness.2": 5, "harness.3": 4, "harness.4": 4, "harness.5": 4, "vp_alloc_init.0": 17}
     js += with_witness(J("destroy_shapes", "C16_linked.c", ["-DDESTROY", "-DVP_MAXALLOC=16"], alloc=True, mode="debug", unwind=5, us=LLp, est=60, mem="M", timeout=1800, bound="<= 2 polygons x <= 2 loops x <= 2 coordinates"))
+    NLp = dict(LLp, **{"normalizeMultiPolygon.0": 5, "normalizeMultiPolygon.1": 5, "countLinkedLoops.0": 5, "findPolygonForHole.0": 4, "harness.0": 17, "harness.1": 5, "harness.2": 5})
+    for nl in (2, 3):
+        j = J("normalize_%dloops" % nl, "C16_linked.c", ["-DNORMALIZE", "-DNL=%d" % nl, "-DVP_MAXALLOC=16"], alloc=True, mode="debug", unwind=6, us=NLp, stubs={"linkedGeo": ["isClockwiseLinkedGeoLoop", "bboxFromLinkedGeoLoop", "findPolygonForHole"]}, est=60, mem="M", timeout=1800,
+              witness_expect=["normalize error", "normalize ok"], bound="%d loops of any winding, any hole assignment" % nl)
+        js += with_witness(j) if nl == 2 else [j]
     GL = {"h3SetToVertexGraph.0": 5, "h3SetToVertexGraph.1": 5, "findNodeForEdge.0": 8, "addVertexNode.0": 8, "removeVertexNode.0": 8, "firstVertexNode.0": 8, "destroyVertexGraph.0": 9, "cellToBoundary.0": 4, "harness.0": 13, "vp_alloc_init.0": 13, "memset.0": 8, "memset.1": 8, "memset.2": 2}
     js += with_witness(J("graph_error", "C16_linked.c", ["-DGRAPHERR"], alloc=True, mode="debug", unwind=8, us=GL, stubs={"h3Index": ["cellToBoundary"], "vertexGraph": ["_hashVertex"]}, est=300, mem="L", timeout=2400, tier="thorough", core=False, bound="2 cells, <= 3 vertices each"))
     return js
